@@ -1016,6 +1016,11 @@ def case_eigs(ctx, P, rng, nprng):
         if breakdown_premise(P, r, status, ncv, obs1)[1] is not None or obs1["m"] != obs["m"]:
             ctx.count("eigs_scale_invariance_skipped_borderline_breakdown")
             comparable = False
+    if comparable and not (bool(obs["happy"]) or premise is not None) and obs["sub"] and min(obs["sub"]) < 1e-3 * P.nrm:
+        # an *incomplete* basis that went through a small sub-diagonal is dominated by amplified round-off (the following Krylov steps
+        # amplify it further, without a usable bound): two runs differing by the rounding of c*v0 are not comparable -> counted
+        ctx.count("eigs_scale_invariance_skipped_noise_dominated")
+        comparable = False
     if comparable:
         ctx.count("eigs_calls")
         val1, Y1 = yastn.eigs(P.f, yv1, k=k, which=which, ncv=ncv, hermitian=hflag)
